@@ -54,3 +54,33 @@ add("C14", "fault_enumeration", "property-based testing with fault injection (Hy
     "Process death / I/O errors are injected at Python-level boundaries (not power loss or page-cache reordering); for "
     "FlowIR dumps with hundreds of emitter writes the write boundaries are sampled (counts in evidence).",
     "DESIGN.md section 3, C14")
+
+add("C12", "exploration", "property-based testing (Hypothesis): generated exit-reason sequences x restart options x "
+    "scripted restart-hook outcomes, executed by the real Controller/Engine under the deterministic kernel; launch "
+    "history checked against the policy bounds of the statement",
+    "A one-component experiment is driven through up to 25 scripted task exits with every combination of maxRestarts, "
+    "restartHookFile (unset/empty/custom, present or missing), restartHookOn and hook behaviour (possible, not "
+    "required, not possible, failed, raising, junk, bool, IOError). Checked on the launch history: relaunch only after a "
+    "listed reason or SubmissionFailed, never after Killed/Cancelled/Success, restarts <= maximum (3 default, unlimited "
+    "only for -1 or a named hook file), <=5 consecutive re-submissions, final state after a refusal and termination of "
+    "the stage loop.", _RT_NOTE + " Repeating components are not covered by this check.", "DESIGN.md section 3, C12")
+add("C08", "exploration", "property-based testing (Hypothesis): generated histories of mutator/query calls; differential "
+    "oracle = FlowIRConcrete rebuilt from raw() after every step; returned configurations scribbled on",
+    "State-aware generated histories (set/delete component variables and options, global/stage/platform variables, "
+    "add/update/delete components, queries on any platform, through FlowIRConcrete and through "
+    "FlowIRExperimentConfiguration.setOptionForNode/removeOptionForNode) over confusable component names; after every "
+    "step every (component, platform) query must equal - value or exception class - the answer of a FlowIRConcrete "
+    "rebuilt from scratch, and mutating a returned configuration in place must not change raw() or later answers.",
+    "Public mutators only, no retained return_copy=False references, declared platforms only, names in "
+    "[A-Za-z0-9_.-]+, flag combinations used by repository callers.", "DESIGN.md section 3, C08")
+add("C17", "exploration", "property-based testing (Hypothesis): generated packages x launch environments; independent "
+    "environment model written from the statement; sentinel leak check",
+    "Packages with environments on default/selected/unrelated platforms in mixed-case spellings, DEFAULTS lists, $X/${X} "
+    "references, interpreter components and every environment selector (unset, empty, none, environment, named, "
+    "undefined) are resolved with WorkflowGraph.environmentForNode (FlowIRConcrete+configuration graph and full "
+    "Experiment) under a controlled os.environ; the result must equal the model exactly (system variables + declared "
+    "sources), an undefined environment must raise FlowIREnvironmentUnknown, and no unreferenced launch variable may "
+    "appear by name or value.",
+    "os.environ is replaced in-process and always restored; unspecified corners (empty values, cyclic references, "
+    "selecting 'environment' when undefined) accept both behaviours, listed in evidence assumptions.",
+    "DESIGN.md section 3, C17")
